@@ -36,7 +36,11 @@ type vfUpAnswer struct {
 	Scope   int      // ECS SCOPE PREFIX-LENGTH echoed when the upstream request carried ECS; -1 = none
 	OptOpts []string // foreign options on the upstream OPT: cookie nsid padding local keepalive ecs
 	NoOPT   bool
-	answer  []dns.RR
+	// Proof marks a negative answer the way the validating resolver does (resolver-to-cache provenance seam): "nsec"
+	// plus the signer zone; only CD=0 resolutions are marked.
+	Proof     string
+	ProofZone string
+	answer    []dns.RR
 	ns      []dns.RR
 	extra   []dns.RR
 }
@@ -193,8 +197,35 @@ func (u *vfUp) ServeDNS(ctx context.Context, ch *middleware.Chain) {
 		}
 		resp.Extra = append(resp.Extra, o)
 	}
+	if a != nil && a.Proof == "nsec" && !req.CheckingDisabled {
+		middleware.MarkValidatedNegativeProofResponse(ctx, resp, middleware.ValidatedNegativeProof{Subject: q.Name, Zone: a.ProofZone, Kind: middleware.ValidatedNegativeProofNSEC, Aggressive: true})
+	}
 	_ = ch.Writer.WriteMsg(resp)
 	ch.Cancel()
+}
+
+// vfAddProofZone adds sz.example.org., a zone whose negative answers carry complete NSEC proofs and the resolver's
+// validated-proof provenance, so that the cache admits subtree cuts (RFC 8020) and denial proofs (RFC 8198).
+func vfAddProofZone(t *rapid.T, u *vfUp) {
+	ttl := rapid.SampledFrom([]uint32{5, 30, 300, 3600}).Draw(t, "ttl.sz")
+	sig := func(owner string, labels int, covered string) string {
+		return fmt.Sprintf("%s %d IN RRSIG %s 13 %d %d %s %s 4242 sz.example.org. MDAwMDAwMDAwMDAwMDAwMDAwMDAwMDAwMDAwMDAwMDAwMDAwMDAwMDAwMDAwMDAwMDAwMDAwMDAwMDAwMDAwMA==", owner, ttl, covered, labels, ttl, vfRRSIGTime(100*24*time.Hour), vfRRSIGTime(-time.Hour))
+	}
+	soa := fmt.Sprintf("sz.example.org. %d IN SOA ns.sz.example.org. host.sz.example.org. 1 7200 3600 1209600 %d", ttl, ttl)
+	apexNSEC := fmt.Sprintf("sz.example.org. %d IN NSEC alpha.sz.example.org. NS SOA RRSIG NSEC DNSKEY", ttl)
+	cover := fmt.Sprintf("glib.sz.example.org. %d IN NSEC help.sz.example.org. A RRSIG NSEC", ttl)
+	nx := []string{soa, sig("sz.example.org.", 3, "SOA"), cover, sig("glib.sz.example.org.", 4, "NSEC"), apexNSEC, sig("sz.example.org.", 3, "NSEC")}
+	for _, n := range []string{"gone.sz.example.org.", "a.b.gone.sz.example.org."} {
+		for _, ty := range []uint16{dns.TypeA, dns.TypeAAAA, dns.TypeTXT, dns.TypeMX} {
+			u.table[vfUpKey(n, ty)] = &vfUpAnswer{Scope: -1, Rcode: dns.RcodeNameError, Ns: nx, AD: true, Proof: "nsec", ProofZone: "sz.example.org."}
+		}
+	}
+	exact := fmt.Sprintf("nd.sz.example.org. %d IN NSEC nf.sz.example.org. A RRSIG NSEC", ttl)
+	nd := []string{soa, sig("sz.example.org.", 3, "SOA"), exact, sig("nd.sz.example.org.", 4, "NSEC")}
+	for _, ty := range []uint16{dns.TypeTXT, dns.TypeMX, dns.TypeAAAA} {
+		u.table[vfUpKey("nd.sz.example.org.", ty)] = &vfUpAnswer{Scope: -1, Ns: nd, AD: true, Proof: "nsec", ProofZone: "sz.example.org."}
+	}
+	u.table[vfUpKey("nd.sz.example.org.", dns.TypeA)] = &vfUpAnswer{Scope: -1, AD: true, Answer: []string{fmt.Sprintf("nd.sz.example.org. %d IN A 192.0.2.50", ttl), sig("nd.sz.example.org.", 4, "A")}}
 }
 
 // vfWorld is one running pipeline + server.
